@@ -7,4 +7,5 @@ Related == << <<"GPL-2.0", "GPL-1.0+", "GPL-3.0-only", "MIT">>, <<"Apache-1.0+",
 Exc1 == "Classpath-exception-2.0"
 Exc2 == "Bison-exception-2.2"
 Plain == "Zlib"
+Gnu == "GPL-2.0-or-later"   \* a listed -or-later id
 =============================================================================
